@@ -56,6 +56,9 @@ def work(tier, seed):
         items.append({"kind": "large_arrays", "which": k})
     items.append({"kind": "scalar_kinds"})
     items.append({"kind": "long_history"})
+    # pointwise_cm with (scores x thresholds) beyond 2^24 and 2^25 cells, in sizes that are no multiples of a power of two
+    for ns, nt in ((5000, 4096), (70001, 300), (33, 600011)) + (((9001, 8192),) if tier != "quick" else ()):
+        items.append({"kind": "pointwise_large", "n_scores": ns, "n_thresholds": nt})
     return items
 
 
@@ -109,6 +112,8 @@ def run(item, ctx, tier, seed):
         return _run_scalar_kinds(ctx)
     if item["kind"] == "long_history":
         return _run_long_history(ctx, tier)
+    if item["kind"] == "pointwise_large":
+        return _run_pointwise_large(item, ctx)
     from score_analysis import Scores
 
     blocks = [tuple(x) for x in item["blocks"]]
@@ -116,6 +121,7 @@ def run(item, ctx, tier, seed):
     T = ot.threshold_alphabet(vals)
     T = [t for t in T] + [float("nan")]  # a NaN threshold is answered the same way in array and scalar calls
     shapes = [tuple(s) for s in b["shapes"]]
+    first_classes = None
     for ci_, cfg in enumerate(ot.CFGS):
         for ep, en in [tuple(e) for e in b["easy"]]:
             pin_arr, nin_arr = np.array(pos[::-1], dtype=float), np.array(neg[::-1], dtype=float)
@@ -136,10 +142,23 @@ def run(item, ctx, tier, seed):
                     ctx.state()
                     if arr.size >= 2 and (arr.ndim >= 2 or layout != "C"):
                         ctx.nontrivial()
-                    ok, m = guarded(ctx, "cm", case, lambda: s.cm(arr).matrix)
+                    ok, cmobj = guarded(ctx, "cm", case, lambda: s.cm(arr))
                     ctx.tick()
+                    m = cmobj.matrix if ok else None
                     if ok:
                         check_elementwise(ctx, case, "cm", m, arr, lambda t: s.cm(t).matrix, (2, 2))
+                        # the returned object is the caller's: whatever is written into it must not reach later results
+                        cls0 = np.array(cmobj.classes, copy=True)
+                        if first_classes is None:
+                            first_classes = cls0.copy()
+                        elif not np.array_equal(cls0, first_classes):
+                            ctx.fail("returned-object-is-the-callers", dict(case, attribute="classes"), observed=cls0, expected=first_classes)
+                        try:
+                            cmobj.classes[...] = cmobj.classes[::-1].copy()
+                            if isinstance(cmobj.matrix, np.ndarray) and cmobj.matrix.flags.writeable and cmobj.matrix.size:
+                                cmobj.matrix[...] = -7
+                        except (ValueError, TypeError):
+                            pass
                     for r in RATES:
                         ok, v = guarded(ctx, r, case, lambda: getattr(s, r)(arr))
                         ctx.tick()
@@ -440,6 +459,43 @@ def _run_long_history(ctx, tier):
                         ctx.fail("threshold-setting-after-long-history", dict(case, target=r, setter=st), observed=float(got), expected=r)
                         break
     ctx.sample({"kind": "long_history", "distinct_arguments": n, "requeried": 40})
+    return None
+
+
+def _run_pointwise_large(item, ctx):
+    """Every cell of a large pointwise array against the decision rule evaluated with broadcasting in this file."""
+    from score_analysis.scores import pointwise_cm
+
+    ns, nt = item["n_scores"], item["n_thresholds"]
+    scores = ((np.arange(ns) * 37) % 1009) / 16.0
+    labels = ((np.arange(ns) * 5 + (np.arange(ns) // 7)) % 3 == 0).astype(int)
+    thr = ((np.arange(nt) * 101) % 1013) / 16.0 - 0.03125 * (np.arange(nt) % 2)
+    for cfg in (ot.CFGS[0], ot.CFGS[3]):
+        case = {"kind": "pointwise_large", "n_scores": ns, "n_thresholds": nt, "cfg": list(cfg)}
+        ctx.state()
+        ctx.nontrivial()
+        ok, pw = guarded(ctx, "pointwise_cm", case, lambda: pointwise_cm(labels, scores, thr, score_class=cfg[0], equal_class=cfg[1]))
+        ctx.tick(ns * nt)
+        if not ok:
+            continue
+        if pw.shape != (ns, nt, 2, 2):
+            ctx.fail("pointwise-shape", case, observed=list(pw.shape), expected=[ns, nt, 2, 2])
+            continue
+        sc_, th_ = scores[:, None], thr[None, :]
+        if cfg[0] == "pos":
+            pred = sc_ >= th_ if cfg[1] == "pos" else sc_ > th_
+        else:
+            pred = sc_ <= th_ if cfg[1] == "pos" else sc_ < th_
+        isp = (labels == 1)[:, None]
+        for (a, c), want in (((0, 0), isp & pred), ((0, 1), isp & ~pred), ((1, 0), ~isp & pred), ((1, 1), ~isp & ~pred)):
+            got = pw[:, :, a, c]
+            if not np.array_equal(got, want):
+                i, j = np.argwhere(got != want)[0].tolist()
+                ctx.fail("element-equals-scalar-call", dict(case, score_index=i, threshold_index=j, cell=[a, c], score=float(scores[i]),
+                                                             threshold=float(thr[j]), label=int(labels[i])), observed=bool(got[i, j]), expected=bool(want[i, j]))
+                break
+        del pw
+    ctx.sample({"kind": "pointwise_large", "n_scores": ns, "n_thresholds": nt})
     return None
 
 
